@@ -42,6 +42,8 @@ def corpus():
     # more than MAX_EVENTS ready descriptors; stop from a callback
     c.append(["beh 3 0 0 : stop"] + ["op pa %d %d 1 %d" % (i % 3, 100 + i, 1 + i) for i in range(15)] +
              ["run " + " | ".join(["0 0 r " + " ".join("%d:1" % (100 + i) for i in range(15))] * 5)])
+    # descriptor closed WITHOUT poll_del and its number added again (C08_fd_reuse_refuted), then deleted by number
+    c.append(["op pa 1 100 1 1", "op close 100", "op pa 0 100 1 2", "run 0 0 r 100:1 | 0 1", "op pd 100", "run 0 0 | 0 0 | 0 0 | 0 0"])
     # descriptor closed and its number reused after a poll_del; negative return then re-add (EEXIST: still in the kernel)
     c.append(["beh 1 0 -1 :", "op pa 1 100 1 1", "run 0 0 r 100:1 | 0 0 r 100:1 | 0 1", "op pa 1 100 1 2", "op close 100", "op pa 1 100 1 3",
               "run 0 0 r 100:1 | 0 0 r 100:1 | 0 0"])
